@@ -366,37 +366,38 @@ def parseLoop (s : Text) : Except PyErr (List Item) :=
   match tokenItems r.2.1 with
   | .error e => .error e
   | .ok toks =>
-    if h : r.2.2 = [] then .ok (front ++ toks)          -- if not rest: break
+    if _h : r.2.2 = [] then .ok (front ++ toks)         -- if not rest: break
     else
       match parseLoop r.2.2 with
       | .error e => .error e
       | .ok more => .ok (front ++ toks ++ more)
 termination_by s.length
-decreasing_by exact peel_rest_lt s h
+decreasing_by exact peel_rest_lt s _h
 
 /-- `parse(s)` -/
 def parse (s : Text) : Except PyErr (List Item) := parseLoop s
 
 /-! ### remove_ansi -/
 
+/-- `[0-?]*[ -\/]*[@-~]` at the head of `r`, after an introducer of `k` characters: length of the whole match. -/
+def ansiBody (k : Nat) (r : Text) : Option Nat :=
+  let p := r.takeWhile isParam
+  let r1 := r.dropWhile isParam
+  let i := r1.takeWhile isIntermed
+  match r1.dropWhile isIntermed with
+  | cmd :: _ => if isFinal cmd then some (k + p.length + i.length + 1) else none
+  | [] => none
+
 /-- Length of the match of `(\x9B|\x1B\[)[0-?]*[ -\/]*[@-~]` at the head of the text, if it matches. -/
-def ansiLen (s : Text) : Option Nat :=
-  let body (k : Nat) (r : Text) : Option Nat :=
-    let p := r.takeWhile isParam
-    let r1 := r.dropWhile isParam
-    let i := r1.takeWhile isIntermed
-    match r1.dropWhile isIntermed with
-    | cmd :: _ => if isFinal cmd then some (k + p.length + i.length + 1) else none
-    | [] => none
-  match s with
+def ansiLen : Text → Option Nat
+  | [] => none
   | c :: r =>
-    if c = CSI8 then body 1 r
+    if c = CSI8 then ansiBody 1 r
     else if c = ESC then
       match r with
-      | c2 :: r' => if c2 = '[' then body 2 r' else none
+      | c2 :: r' => if c2 = '[' then ansiBody 2 r' else none
       | [] => none
     else none
-  | [] => none
 
 /-- `re.sub(pattern, "", s)`: scan left to right; `skip` = characters of the current match still to drop. -/
 def removeAnsiAux : Nat → Text → Text
